@@ -1,5 +1,5 @@
 (* Props/C11.v -- property C11: parsing respects precedence, associativity and token boundaries. *)
-From FPV Require Import Base.Prelude C11.Model C11.Proofs C11.ProofsFull.
+From FPV Require Import Base.Prelude C11.Model C11.Proofs C11.ProofsFull C11.Lexer C11.LexerProofs.
 
 (* PROVED (partial): for ANY precedence table and every tree of the binary-operator core (atoms, binary
    operators of every level, parenthesised sub-terms) of ANY depth, the model parser inverts the
@@ -69,3 +69,44 @@ Print Assumptions C11_renderings_agree.
 
 (* NOT PROVED: the lexer-level statement that whitespace / comment gaps do not change the token list.  It is covered
    by the correspondence run only (six gap decorations of every generated source). *)
+
+(* ---- token boundaries: the character-level lexer model (C11/Lexer.v, tied to the generated lexer by the second
+   correspondence stream) ------------------------------------------------------------------------------------- *)
+(* PROVED: token texts separated by whitespace lex to exactly those texts, whatever the whitespace is (any non-empty
+   mix of blanks, tabs, newlines, carriage returns between tokens; anything, also nothing, before the first and after
+   the last), for any number of tokens. *)
+Theorem C11_lex_spaced_tokens : forall lgs g0 f,
+  wsall g0 -> Forall (fun lg => lexeme (fst lg)) lgs ->
+  (forall i lg, nth_error lgs i = Some lg -> S i < length lgs -> wsne (snd lg))%nat ->
+  (forall lg, nth_error lgs (pred (length lgs)) = Some lg -> wsall (snd lg)) ->
+  (length lgs < f)%nat ->
+  lex f (weave g0 lgs) = Some (map fst lgs).
+Proof. exact lex_weave. Qed.
+(* hence two spellings of one token sequence that differ only in their whitespace have the same token stream *)
+Theorem C11_lex_whitespace_irrelevant : forall ls gs1 gs2 g1 g2 f,
+  length gs1 = length ls -> length gs2 = length ls ->
+  Forall lexeme ls -> Forall wsne gs1 -> Forall wsne gs2 -> wsall g1 -> wsall g2 -> (length ls < f)%nat ->
+  lex f (weave g1 (combine ls gs1)) = lex f (weave g2 (combine ls gs2)).
+Proof. exact lex_whitespace_irrelevant. Qed.
+(* a token followed by a whitespace character ends exactly there, whatever comes after (every token class: names and
+   keywords, $-names, numbers with and without fraction, quoted tokens with escapes, one- and two-character operators) *)
+Theorem C11_token_then_whitespace : forall s l r, scan s = Some (l, r) -> ws_led r ->
+  s = l ++ r /\ l <> [] /\ forall r', ws_led r' -> scan (l ++ r') = Some (l, r').
+Proof. exact scan_token_then_ws. Qed.
+(* leading whitespace never matters, for any source; a line comment with its newline is skipped like whitespace *)
+Theorem C11_lex_leading_whitespace : forall g s f, wsall g -> lex f (g ++ s) = lex f s.
+Proof. exact lex_leading_ws. Qed.
+Theorem C11_line_comment_skipped : forall body s nl,
+  forallb (fun c => negb (is_nl c)) body = true -> is_nl nl = true ->
+  skipm MTop (47 :: 47 :: body ++ nl :: s)%N = skipm MTop s.
+Proof. exact skipm_line_comment. Qed.
+Example C11_lexemes_nonvacuous :
+  Forall lexeme [[97;95;49]; [49;50;46;53]; [39;97;92;39;98;39]; [36;116;104;105;115]; [60;61]; [33;126]; [47]; [96;32;96]]%N.
+Proof. exact lexeme_examples. Qed.
+(* NOT PROVED (correspondence only): insertion of a gap where the source has none (`1+2` versus `1 + 2`), block
+   comments as gaps, DATE / DATETIME / TIME literals, the fallback reading of quoted tokens. *)
+Print Assumptions C11_lex_spaced_tokens.
+Print Assumptions C11_lex_whitespace_irrelevant.
+Print Assumptions C11_token_then_whitespace.
+Print Assumptions C11_lex_leading_whitespace.
+Print Assumptions C11_line_comment_skipped.
